@@ -841,6 +841,7 @@ fn judge(hseed: u64, set: &Settings, evs: &[Ev], expected: &BTreeMap<u32, Vec<St
     let mut max_yielded: BTreeMap<u32, u64> = BTreeMap::new();
     let mut any_yield: BTreeSet<u32> = BTreeSet::new();
     let mut max_committed: BTreeMap<u32, u64> = BTreeMap::new();
+    let mut max_auto_committed: BTreeMap<u32, u64> = BTreeMap::new();
     // resume: (conn) -> stored map awaiting the first yield per partition
     let mut awaiting: BTreeMap<u32, BTreeMap<u32, Option<u64>>> = BTreeMap::new();
     // messages skipped legitimately (fetch-time commits: fetched but not yielded before a drop)
@@ -848,10 +849,16 @@ fn judge(hseed: u64, set: &Settings, evs: &[Ev], expected: &BTreeMap<u32, Vec<St
     let single_identity = set.members == 1;
     for (i, e) in evs.iter().enumerate() {
         match e {
-            Ev::Fetch { part, last, .. } => {
+            Ev::Fetch { part, last, auto, .. } => {
                 let m = max_fetched.entry(*part).or_insert(0);
                 *m = (*m).max(*last);
                 any_fetch.insert(*part);
+                if *auto {
+                    // a poll with auto-commit stores the last fetched offset on the server: a commit, although none is seen on the wire
+                    // (kept apart: the interval task's lower "consumed" commits in the polling modes are not judged against it, only its zero is)
+                    let mc = max_auto_committed.entry(*part).or_insert(*last);
+                    *mc = (*mc).max(*last);
+                }
             }
             Ev::Commit { part, off, ok, conn } => {
                 if !*ok || *conn == 0 {
@@ -866,7 +873,11 @@ fn judge(hseed: u64, set: &Settings, evs: &[Ev], expected: &BTreeMap<u32, Vec<St
                 // a member that has just been given the partition has consumed nothing of it yet; other cross-member orders are legitimate)
                 let interval_mode = matches!(set.mode, Mode::Interval | Mode::IntervalOrPolling | Mode::IntervalOrEach);
                 if set.strat == Strat::Next && (single_identity || (interval_mode && *off == 0)) {
+                    let auto_mc = if interval_mode && *off == 0 { max_auto_committed.get(part).copied().unwrap_or(0) } else { 0 };
                     let mc = max_committed.entry(*part).or_insert(*off);
+                    if auto_mc > *mc {
+                        *mc = auto_mc;
+                    }
                     if *off < *mc {
                         let trig = if *off == 0 && interval_mode {
                             "commit-regressed/interval-task-stores-zero-for-partition-not-yet-consumed"
